@@ -91,7 +91,9 @@ func formTokenMatcher(delims []string) *regexp.Regexp {
 	for idx, val := range delims[3] {
 		exclusion = append(exclusion, "[^"+string(val)+"]")
 		if idx > 0 {
-			exclusion[idx] = delims[3][0:idx] + exclusion[idx]
+			// idx counts bytes, exclusion has one entry per character
+			last := len(exclusion) - 1
+			exclusion[last] = delims[3][0:idx] + exclusion[last]
 		}
 	}
 
